@@ -9,6 +9,7 @@ package web
 
 import (
 	"bytes"
+	"context"
 	"encoding/base64"
 	"encoding/json"
 	"fmt"
@@ -25,6 +26,7 @@ import (
 	"go.uber.org/zap"
 
 	"github.com/mimiro-io/datahub/internal/conf"
+	"github.com/mimiro-io/datahub/internal/jobs/source"
 	"github.com/mimiro-io/datahub/internal/server"
 )
 
@@ -38,6 +40,9 @@ type VerifC15Case struct {
 	Restart bool  `json:"restart"` // http mode: close and reopen the store after the first POST
 	Body2   string `json:"body2"`  // http mode: a second POST (after the restart, if any) before the GET
 	Fn      string `json:"fn"`     // proxy mode: changes-raw | changes | entities-raw | entities
+	Public   []string `json:"public"`   // http mode: publicNamespaces of the dataset
+	GetFirst bool     `json:"getfirst"` // http mode: a GET (entities and changes) right after dataset creation and again after the first POST
+	Pages    []string `json:"pages"`    // source mode: the documents one HTTPDatasetSource object reads, in order
 }
 
 type VerifC15Parse struct {
@@ -57,6 +62,7 @@ type VerifC15Obs struct {
 	Status2  int              `json:"status2"`            // http mode: status of the second POST (0 = none)
 	Post2    *VerifC15Parse   `json:"post2,omitempty"`
 	Token    string           `json:"token"`              // proxy mode: continuation token returned
+	Pages    []*VerifC15Parse `json:"pages,omitempty"`    // source mode: one observation per document
 	GetBytes int              `json:"getbytes,omitempty"` // size of the GET response
 	PostReply string          `json:"postreply,omitempty"`
 }
@@ -174,6 +180,54 @@ func (d *VerifC15Driver) runProxy(c VerifC15Case, body []byte) *VerifC15Obs {
 		}
 	}()
 	obs.Groups = append(obs.Groups, []interface{}{"", ids})
+	return obs
+}
+
+// one HTTPDatasetSource object reads the given documents one after the other (pages of a remote, or the
+// successive runs of a job: the pipeline keeps the source object)
+func (d *VerifC15Driver) runSource(c VerifC15Case) *VerifC15Obs {
+	obs := &VerifC15Obs{}
+	obs.Groups = [][]interface{}{}
+	obs.Ns = [][]string{}
+	obs.Tokens = []interface{}{}
+	obs.Outcome = "ok"
+	var page []byte
+	srv := httptest.NewServer(http.HandlerFunc(func(w http.ResponseWriter, r *http.Request) {
+		w.Header().Set("Content-Type", "application/json")
+		w.WriteHeader(200)
+		_, _ = w.Write(page)
+	}))
+	defer srv.Close()
+	src := &source.HTTPDatasetSource{Endpoint: srv.URL + "/datasets/remote/changes", Store: d.store, Logger: zap.NewNop().Sugar()}
+	for _, pg := range c.Pages {
+		page = []byte(pg)
+		p := &VerifC15Parse{Groups: [][]interface{}{}, Ns: [][]string{}}
+		p.Tokens, p.EOF = verifC15Tokens(page)
+		ents := make([]interface{}, 0)
+		func() {
+			defer func() {
+				if r := recover(); r != nil {
+					p.Outcome = "panic"
+					p.Detail = fmt.Sprint(r)
+				}
+			}()
+			err := src.ReadEntities(context.Background(), &source.StringDatasetContinuation{}, 3,
+				func(es []*server.Entity, _ source.DatasetContinuation) error {
+					for _, e := range es {
+						ents = append(ents, verifC15Ent(d.store, e))
+					}
+					return nil
+				})
+			if err != nil {
+				p.Outcome = "err"
+				p.Detail = err.Error()
+			} else {
+				p.Outcome = "ok"
+			}
+		}()
+		p.Groups = append(p.Groups, []interface{}{"", ents})
+		obs.Pages = append(obs.Pages, p)
+	}
 	return obs
 }
 
@@ -418,13 +472,21 @@ func (d *VerifC15Driver) runHTTP(c VerifC15Case, body []byte) *VerifC15Obs {
 		names = []string{"ds"}
 	}
 	for _, n := range names {
-		if _, err := dsm.CreateDataset(n, nil); err != nil {
+		var cfg *server.CreateDatasetConfig
+		if len(c.Public) > 0 {
+			cfg = &server.CreateDatasetConfig{PublicNamespaces: c.Public}
+		}
+		if _, err := dsm.CreateDataset(n, cfg); err != nil {
 			obs.Outcome = "setup-error"
 			obs.Detail = err.Error()
 			return obs
 		}
 	}
 	e := verifC15Echo(store, dsm)
+	if c.GetFirst {
+		_, _ = verifC15Do(e, http.MethodGet, "/datasets/"+names[0]+"/entities", nil)
+		_, _ = verifC15Do(e, http.MethodGet, "/datasets/"+names[0]+"/changes", nil)
+	}
 	post := &VerifC15Parse{Groups: [][]interface{}{}, Ns: [][]string{}}
 	post.Tokens, post.EOF = verifC15Tokens(body)
 	obs.Post = post
@@ -437,6 +499,10 @@ func (d *VerifC15Driver) runHTTP(c VerifC15Case, body []byte) *VerifC15Obs {
 	obs.PostReply = string(pb)
 	if obs.Status == 500 && !strings.Contains(obs.PostReply, "\"Internal Server Error\"") {
 		obs.Status = 599 // an error returned by the store, not a recovered panic
+	}
+	if c.GetFirst {
+		_, _ = verifC15Do(e, http.MethodGet, "/datasets/"+names[0]+"/entities", nil)
+		_, _ = verifC15Do(e, http.MethodGet, "/datasets/"+names[0]+"/changes", nil)
 	}
 	if c.Restart {
 		_ = store.Close()
@@ -495,6 +561,8 @@ func (d *VerifC15Driver) Run(c VerifC15Case) *VerifC15Obs {
 		return d.runHTTP(c, body)
 	case "proxy":
 		return d.runProxy(c, body)
+	case "source":
+		return d.runSource(c)
 	}
 	return &VerifC15Obs{VerifC15Parse: VerifC15Parse{Outcome: "setup-error", Detail: "unknown mode"}}
 }
